@@ -46,7 +46,8 @@ def clone_case(draw):
     else:
         h['ops'] = pre
     h['ops'] += [list(o) for o in extra]
-    return dict(hist=h, which=draw(st.integers(0, 2)), mode=draw(st.sampled_from(['clone', 'subtree', 'subtree', 'subtree-query'])),
+    return dict(hist=h, which=draw(st.integers(0, 2)), mode=draw(st.sampled_from(['clone', 'subtree', 'subtree', 'subtree-query', 'subtree', 'clone-emptied', 'subtree-empty'])),
+                form=draw(st.sampled_from(['list', 'list', 'tuple', 'generator', 'iterator', 'roots-list'])),
                 sel=draw(st.lists(st.integers(0, 30), min_size=1, max_size=4)),
                 custom=draw(st.lists(st.sampled_from([None, 'x', 3, (1, 2)]), min_size=4, max_size=4)),
                 side=draw(st.sampled_from(['copy', 'source'])),
@@ -73,7 +74,7 @@ def check(case, exclude=True):
     g = rep.final
     sizes = [len(g.members(i)) for i in range(len(world.ws))]
     wi = max(range(len(world.ws)), key=lambda i: (sizes[i], -((i - case['which']) % 3)))
-    if sizes[wi] == 0:
+    if sizes[wi] == 0 and case['mode'] not in ('clone', 'clone-emptied', 'subtree-empty'):
         res.label('empty-wbs')
         return res
     src = world.ws[wi]
@@ -89,12 +90,21 @@ def check(case, exclude=True):
         t.milestone = (k % 4 == 0)
     member_ids = {id(t) for t in members}
     mode = case['mode']
-    if mode == 'clone':
+    if mode == 'clone-emptied':
+        # a WBS that carries attributes but no tasks (any more)
+        src.remove_all(lambda t: True)
+        members, member_ids = [], set()
+        mode = 'clone'
+    if mode == 'subtree-empty':
+        selection = []
+    elif mode == 'clone':
         selection = list(src.roots)
     else:
         # antichain: drop every pick that is an ancestor / descendant of an earlier pick
         selection = []
         for s in case['sel']:
+            if not members:
+                break
             t = members[s % len(members)]
             if any(t is x or t in x.all_children or x in t.all_children for x in selection):
                 continue
@@ -115,12 +125,27 @@ def check(case, exclude=True):
             cp = src.clone()
         elif mode == 'subtree-query':
             cp = src.subtree(src.tasks(id_in_=wanted))
+        elif mode == 'subtree-empty':
+            cp = src.subtree(src.tasks(id_in_=[987654])) if case.get('form') == 'generator' else src.subtree([])
         else:
-            cp = src.subtree(selection[0] if len(selection) == 1 else selection)
+            form = case.get('form', 'list')
+            arg = selection
+            if len(selection) == 1 and form == 'list':
+                arg = selection[0]
+            elif form == 'tuple':
+                arg = tuple(selection)
+            elif form == 'generator':
+                arg = (t for t in selection)
+            elif form == 'iterator':
+                arg = iter(list(selection))
+            elif form == 'roots-list' and [id(t) for t in selection] == [id(t) for t in src.roots]:
+                arg = src.roots
+            cp = src.subtree(arg)
     except Exception as e:
         res.v('C10:%s-raises-%s' % (mode.split('-')[0], type(e).__name__), dict(error=repr(e)[:300], trace=rep.trace[-8:]))
         return res
     tag = 'clone' if mode == 'clone' else 'subtree'
+    res.label('form:' + case.get('form', 'list'))
     # ---- (1) source unchanged; outside tasks only gain mirror links to copies
     if side_snapshot(src) != before:
         res.v('C10:%s-changes-the-source-WBS' % tag, dict(trace=rep.trace[-8:]))
